@@ -25,10 +25,6 @@ from uuid import UUID
 
 from framework import Check, clist, copt, cpair, cstr, load_corpus
 
-MUT = os.environ.get("VERIF_MUT_SRC")  # private mutated copy of /repo/src (mutation testing of this check only)
-if MUT:
-    sys.path.insert(0, MUT)
-
 TRUSTED = [
     "Coq 8.16.1 kernel + vm_compute (witness theorems and correspondence evaluation)",
     "hand-written Gallina models coq/Model/Converter.v (cattrs_converter.py as it drives cattrs) and "
